@@ -32,7 +32,7 @@ func (c01) Rule() string {
 func (c01) RequiredBuckets(tier string) []string {
 	return []string{"origin:generated", "origin:corpus", "origin:pipeline", "table:empty", "table:nonempty", "record:contig-only", "record:empty-sequence", "date:feb29", "stream:1", "stream:5",
 		"qual:quoted", "qual:literal", "qual:toggle", "qual:multiline", "qual:empty-value", "op:insert", "op:embed", "op:delete", "op:erase", "op:slice", "op:slice-wrap", "op:rotate", "op:reverse", "op:complement", "op:concat",
-		"cli:pipe", "registry-invariant-checked", "molecule:AA", "refs:3", "extended:qualifier-value-with-double-quote", "extended:registry-learns-toggle-then-drops-values"}
+		"cli:pipe", "registry-invariant-checked", "molecule:AA", "refs:3", "extended:qualifier-value-with-double-quote", "extended:registry-learns-toggle-then-drops-values", "origin:text-with-novel-qualifier-names"}
 }
 func (c01) Findings() []fw.Finding {
 	w := func(build func() gts.Sequence, check func(seqio.GenBankFields, gts.FeatureSlice) (bool, string)) func() (bool, string) {
@@ -658,7 +658,63 @@ func (m c01) Run(c *fw.Ctx) {
 		}
 	}
 	m.cliPipe(c, recent)
+	m.textOrigin(c)
 	m.extended(c)
+}
+
+// textOrigin feeds the reader record texts that gts did not write itself -
+// feature tables using qualifier names no registry knows yet, in each of the
+// three spellings (quoted, literal, value-less), LF and CRLF - and then demands
+// the round trip of the record that was read: what the first sighting of a
+// name yields must be what every later reading yields.
+func (m c01) textOrigin(c *fw.Ctx) {
+	n := c.Pick(12, 300)
+	for k := 0; k < n; k++ {
+		if !c.NextOwn() {
+			continue
+		}
+		tag := fmt.Sprintf("%d_%d_%d", c.Seed, c.Shard, k)
+		if c.Seed < 0 {
+			tag = "m" + tag[1:]
+		}
+		quals := []string{
+			fmt.Sprintf("/zzq_%s=\"first sight quoted\"", tag),
+			fmt.Sprintf("/zzl_%s=%d", tag, 3+k),
+			fmt.Sprintf("/zzt_%s", tag),
+		}
+		// vary which novel kinds appear and in which order.
+		var lines []string
+		for i := 0; i < 3; i++ {
+			j := (i + k) % 3
+			if (k>>uint(i))&1 == 0 || i == k%3 {
+				lines = append(lines, "                     "+quals[j])
+			}
+		}
+		text := "LOCUS       TXT                       20 bp    DNA     linear   SYN 29-FEB-2020\n" +
+			"DEFINITION  text origin.\nACCESSION   TXT1\nVERSION     TXT1.1\nKEYWORDS    .\nSOURCE      s\n  ORGANISM  s\n            .\n" +
+			"FEATURES             Location/Qualifiers\n     gene            1..10\n                     /label=\"t0\"\n" + strings.Join(lines, "\n") + "\n" +
+			"     CDS             complement(3..9)\n" + strings.Join(lines, "\n") + "\n" +
+			"ORIGIN      \n        1 acgtacgtac gtacgtacgt\n//\n"
+		if k%2 == 1 {
+			text = strings.ReplaceAll(text, "\n", "\r\n")
+		}
+		recs, err, p, pv, site, stack := readAll([]byte(text))
+		enc := "text-origin record\n" + text
+		if p {
+			c.Begin(enc)
+			c.Count(enc, true)
+			c.ViolateX("text-origin:"+panicClass(site, pv), enc, "no panic", fmt.Sprint(pv), stack, nil)
+			continue
+		}
+		if err != nil || len(recs) != 1 {
+			c.Begin(enc)
+			c.Count(enc, true)
+			c.Violate("text-origin:not-read", enc, "1 record", fmt.Sprintf("%d records, err=%v", len(recs), err))
+			continue
+		}
+		c.Bucket("origin:text-with-novel-qualifier-names")
+		m.roundTrip(c, recs[0], "text", "novel qualifier names "+tag)
+	}
 }
 
 // extended runs the extended-domain records of DESIGN section 2 (M4): shapes
@@ -743,6 +799,13 @@ func (m c01) extended(c *fw.Ctx) {
 	}
 }
 
+// cliPipe observes "gts CLI stdout piped into gts CLI stdin": every record-
+// writing subcommand is run (--no-cache) on the GenBank text of generated
+// records, alone and as a two-record stream; what it prints must be read back
+// by the library (and round trip like any other reachable record), hold as
+// many records as went in for the commands that map records one to one - also
+// when the locator selects nothing in the last record - and be accepted by a
+// second gts command.
 func (m c01) cliPipe(c *fw.Ctx, ws [][]byte) {
 	bin := os.Getenv("GTS_BIN")
 	if bin == "" || len(ws) == 0 {
@@ -755,28 +818,68 @@ func (m c01) cliPipe(c *fw.Ctx, ws [][]byte) {
 		return
 	}
 	defer os.RemoveAll(env.Root)
-	pairs := [][2]string{{"reverse", "complement"}, {"clear", "reverse"}, {"complement", "sort"}}
+	type stage struct {
+		args   []string
+		oneOne bool // one output record per input record
+		pass   bool // a pass-through command: failing on a written record is C01's business
+	}
+	firsts := []stage{
+		{[]string{"clear"}, true, true}, {[]string{"reverse"}, true, true}, {[]string{"complement"}, true, true}, {[]string{"sort"}, true, true},
+		{[]string{"select", "CDS"}, true, true}, {[]string{"select", "-v", "gene"}, true, true},
+		{[]string{"delete", "zz_no_such_key"}, true, false}, {[]string{"delete", "-e", "zz_no_such_key"}, true, false}, {[]string{"delete", "gene"}, true, false},
+		{[]string{"rotate", "zz_no_such_key"}, true, false}, {[]string{"insert", "zz_no_such_key", "@acgt"}, true, false}, {[]string{"insert", "gene", "@acgt"}, true, false},
+		{[]string{"define", "misc_feature", "1..1"}, true, false}, {[]string{"search", "@acg"}, true, false},
+		{[]string{"extract", "gene"}, false, false}, {[]string{"split", "gene"}, false, false}, {[]string{"join"}, false, false}, {[]string{"pick", "0"}, false, false},
+	}
+	seconds := [][]string{{"clear"}, {"sort"}, {"complement"}, {"reverse"}}
 	for i, w := range ws {
-		if !c.NextOwn() {
-			continue
-		}
-		p := pairs[i%len(pairs)]
-		enc := fmt.Sprintf("cli: gts %s | gts %s\n%s", p[0], p[1], clipS(string(w), 4000))
-		c.Begin(enc)
-		c.Count("cli|"+p[0]+"|"+p[1]+"|"+string(w), true)
-		c.Bucket("cli:pipe")
-		a := env.Run([]string{p[0], "--no-cache"}, w, nil, 60*time.Second)
-		if a.Exit != 0 || a.TimedOut {
-			c.Violate("cli:first-stage-fails:"+p[0], enc, "exit 0", fmt.Sprintf("exit %d %s", a.Exit, clipS(string(a.Stderr), 500)))
-			continue
-		}
-		b := env.Run([]string{p[1], "--no-cache"}, a.Stdout, nil, 60*time.Second)
-		if b.Exit != 0 || b.TimedOut {
-			c.Violate("cli:second-stage-rejects-gts-output:"+p[1], enc, "exit 0", fmt.Sprintf("exit %d %s", b.Exit, clipS(string(b.Stderr), 500)))
-			continue
-		}
-		if recs, err, pn, _, _, _ := readAll(b.Stdout); pn || err != nil || len(recs) != 1 {
-			c.Violate("cli:pipe-output-not-read", enc, "1 record", fmt.Sprintf("%d records err=%v", len(recs), err))
+		for j, st := range firsts {
+			if !c.NextOwn() {
+				continue
+			}
+			in := w
+			nin := 1
+			if (i+j)%2 == 1 {
+				in = append(append([]byte{}, ws[(i+1)%len(ws)]...), w...)
+				nin = 2
+			}
+			second := seconds[(i+j)%len(seconds)]
+			enc := fmt.Sprintf("cli: gts %s | gts %s  (%d input records)\n%s", strings.Join(st.args, " "), second[0], nin, clipS(string(in), 6000))
+			c.Begin(enc)
+			c.Count(fmt.Sprintf("cli|%v|%s|%d|%s", st.args, second[0], nin, in), true)
+			c.Bucket("cli:pipe")
+			c.Bucket("cli:pipe " + st.args[0])
+			a := env.Run(append(append([]string{}, st.args...), "--no-cache"), in, nil, 60*time.Second)
+			if a.Exit != 0 || a.TimedOut {
+				if st.pass {
+					c.Violate("cli:first-stage-fails:"+st.args[0], enc, "exit 0", fmt.Sprintf("exit %d %s", a.Exit, clipS(string(a.Stderr), 500)))
+				} else {
+					c.Skip("gts " + st.args[0] + " does not process this record (the edit itself is judged by C02-C04/C15)")
+				}
+				continue
+			}
+			recs, rerr, pn, pv, _, _ := readAll(a.Stdout)
+			if pn || rerr != nil {
+				c.Violate("cli:output-not-read-back:"+st.args[0], enc, "the output of gts is read back", fmt.Sprintf("%d records, err=%v panic=%v", len(recs), rerr, pv))
+				continue
+			}
+			if st.oneOne && len(recs) != nin {
+				c.Violate("cli:records-lost-or-added:"+st.args[0], enc, fmt.Sprintf("%d records", nin), fmt.Sprintf("%d records", len(recs)))
+				continue
+			}
+			b := env.Run(append(append([]string{}, second...), "--no-cache"), a.Stdout, nil, 60*time.Second)
+			if b.Exit != 0 || b.TimedOut {
+				c.Violate("cli:second-stage-rejects-gts-output:"+second[0], enc, "exit 0", fmt.Sprintf("exit %d %s", b.Exit, clipS(string(b.Stderr), 500)))
+				continue
+			}
+			if r2, err2, pn2, _, _, _ := readAll(b.Stdout); pn2 || err2 != nil || len(r2) != len(recs) {
+				c.Violate("cli:pipe-output-not-read", enc, fmt.Sprintf("%d records", len(recs)), fmt.Sprintf("%d records err=%v", len(r2), err2))
+				continue
+			}
+			// what gts printed is a reachable record like any other.
+			if len(recs) > 0 && j%3 == 0 {
+				m.roundTrip(c, recs[len(recs)-1], "cli-output", fmt.Sprintf("gts %s output, record %d", strings.Join(st.args, " "), len(recs)))
+			}
 		}
 	}
 }
